@@ -1962,10 +1962,9 @@ def _compute_event_comparison_score(
         if "flow_id" not in ref_event.arguments:
             match_score *= 0.9
         else:
-            match_score = float(
-                ref_event.name == InternalEvents.START_FLOW
-                and ref_event.arguments["flow_id"] == event.arguments["flow_id"]
-            )
+            # A match of the start event of a specific flow gets the full score,
+            # provided that all the given parameters (including the flow id) match
+            match_score = float(match_score > 0.0)
     elif event.name in InternalEvents.ALL and ref_event.name in InternalEvents.ALL:
         assert isinstance(event, InternalEvent) and isinstance(ref_event, InternalEvent)
         if (
